@@ -140,6 +140,10 @@ pub fn search_with_timeout_and_memory<M: Mode>(
     pending_lp_constraints: Vec<crate::lpsolver::csp_integration::LinearConstraint>,
     float_precision_digits: i32
 ) -> Search<M> {
+    // The time limit covers the root propagation as well as the search: both stop at `deadline`
+    let start_time = std::time::Instant::now();
+    let deadline = timeout.map(|t| start_time + t);
+
     // ===== LP SOLVER INTEGRATION (Root Node Only) =====
     // Try LP solving at root node if suitable linear system exists
     // Variables fixed to the vertex of the LP relaxation, if it could be applied to the domains
@@ -331,9 +335,10 @@ pub fn search_with_timeout_and_memory<M: Mode>(
     if let Some(vars_lp) = lp_vertex_vars {
         let vertex = Space { vars: vars_lp, ..root.clone() };
         let agenda = Agenda::with_props(vertex.props.get_prop_ids_iter());
-        match propagate(vertex, agenda) {
+        match propagate_until(vertex, agenda, deadline) {
             Some((true, space)) => {
                 let mut engine = DefaultEngine::with_timeout_and_memory(space, mode, timeout, memory_limit_mb);
+                engine.start_time = start_time;
                 engine.fallback = Some(root);
                 return Search::Stalled(Box::new(engine));
             }
@@ -353,9 +358,13 @@ pub fn search_with_timeout_and_memory<M: Mode>(
     if LP_DEBUG {
         eprintln!("LP: Starting initial propagation...");
     }
-    let Some((is_stalled, space)) = propagate(root, agenda) else {
+    let Some((is_stalled, space)) = propagate_until(root, agenda, deadline) else {
         if LP_DEBUG {
             eprintln!("LP: Initial propagation returned None (infeasible)");
+        }
+        // A propagation that was given up at the deadline says nothing about the model
+        if deadline.is_some_and(|d| std::time::Instant::now() >= d) {
+            return Search::TimedOut(start_time.elapsed());
         }
         return Search::Done(None);
     };
@@ -365,7 +374,9 @@ pub fn search_with_timeout_and_memory<M: Mode>(
 
     // Explore space by alternating branching and propagation
     if is_stalled {
-        Search::Stalled(Box::new(DefaultEngine::with_timeout_and_memory(space, mode, timeout, memory_limit_mb)))
+        let mut engine = DefaultEngine::with_timeout_and_memory(space, mode, timeout, memory_limit_mb);
+        engine.start_time = start_time;
+        Search::Stalled(Box::new(engine))
     } else {
         Search::Done(Some(space))
     }
@@ -375,6 +386,8 @@ pub fn search_with_timeout_and_memory<M: Mode>(
 pub enum Search<M> {
     Stalled(Box<DefaultEngine<M>>),
     Done(Option<Space>),
+    /// The time limit ran out during the root propagation, after the given time: nothing is known
+    TimedOut(std::time::Duration),
 }
 
 impl<M> Search<M> {
@@ -383,7 +396,7 @@ impl<M> Search<M> {
         match self {
             Self::Stalled(engine) => engine.get_propagation_count(),
             Self::Done(Some(space)) => space.get_propagation_count(),
-            Self::Done(None) => 0, // Failed search, no space available
+            Self::Done(None) | Self::TimedOut(_) => 0, // Failed search, no space available
         }
     }
 
@@ -392,7 +405,7 @@ impl<M> Search<M> {
         match self {
             Self::Stalled(engine) => engine.get_node_count(),
             Self::Done(Some(space)) => space.get_node_count(),
-            Self::Done(None) => 0, // Failed search, no space available
+            Self::Done(None) | Self::TimedOut(_) => 0, // Failed search, no space available
         }
     }
 
@@ -401,6 +414,7 @@ impl<M> Search<M> {
         match self {
             Self::Stalled(engine) => engine.is_timed_out(),
             Self::Done(_) => false, // Completed searches cannot timeout
+            Self::TimedOut(_) => true,
         }
     }
 
@@ -409,6 +423,7 @@ impl<M> Search<M> {
         match self {
             Self::Stalled(engine) => engine.elapsed_time(),
             Self::Done(_) => std::time::Duration::from_secs(0), // Completed searches don't track time
+            Self::TimedOut(elapsed) => *elapsed,
         }
     }
 
@@ -416,7 +431,7 @@ impl<M> Search<M> {
     pub fn is_memory_limit_exceeded(&self) -> bool {
         match self {
             Self::Stalled(engine) => engine.is_memory_limit_exceeded(),
-            Self::Done(_) => false, // Completed searches cannot exceed memory
+            Self::Done(_) | Self::TimedOut(_) => false, // Completed searches cannot exceed memory
         }
     }
 
@@ -424,7 +439,7 @@ impl<M> Search<M> {
     pub fn get_memory_usage_mb(&self) -> usize {
         match self {
             Self::Stalled(engine) => engine.get_memory_usage_mb(),
-            Self::Done(_) => 0, // Completed searches don't track memory
+            Self::Done(_) | Self::TimedOut(_) => 0, // Completed searches don't track memory
         }
     }
 }
@@ -436,6 +451,7 @@ impl<M: Mode> Iterator for Search<M> {
         match self {
             Self::Stalled(engine) => engine.next(),
             Self::Done(space_opt) => space_opt.take().map(Space::into_solution),
+            Self::TimedOut(_) => None,
         }
     }
 }
@@ -624,6 +640,45 @@ impl<M, B> Engine<M, B> {
     pub fn is_interrupted(&self) -> bool {
         self.is_interrupted
     }
+
+    /// The instant at which the time limit runs out
+    fn deadline(&self) -> Option<std::time::Instant> {
+        self.timeout_duration.map(|timeout_duration| self.start_time + timeout_duration)
+    }
+
+    /// Count one step of the search (an entry of the outer loop of `next`, or a descent into a child
+    /// space) and, every `timeout_check_interval` steps, test the time and memory limits.
+    /// Returns true, after triggering the cleanup, when the search has to stop.
+    fn limit_reached(&mut self) -> bool {
+        // Periodically check timeout and memory limits to reduce overhead
+        self.iteration_count += 1;
+        if self.iteration_count % self.timeout_check_interval != 0 {
+            return false;
+        }
+        #[cfg(selen_verif)]
+        if crate::verif_hooks::scripted_timeout_fires() {
+            self.trigger_cleanup();
+            return true;
+        }
+        // Check timeout
+        if let Some(timeout_duration) = self.timeout_duration {
+            if self.start_time.elapsed() >= timeout_duration {
+                // Timeout exceeded - trigger cleanup before returning
+                self.trigger_cleanup();
+                return true;
+            }
+        }
+
+        // Check memory limit
+        if let Some(limit_mb) = self.memory_limit_mb {
+            if self.get_memory_usage_mb() > limit_mb as usize {
+                // Memory limit exceeded - trigger cleanup before returning
+                self.trigger_cleanup();
+                return true;
+            }
+        }
+        false
+    }
 }
 
 impl<M: Mode, B: Iterator<Item = (Space, crate::constraints::props::PropId)>> Iterator for Engine<M, B> {
@@ -634,32 +689,10 @@ impl<M: Mode, B: Iterator<Item = (Space, crate::constraints::props::PropId)>> It
         if let Some(interval) = crate::verif_hooks::check_interval() {
             self.timeout_check_interval = interval;
         }
+        let deadline = self.deadline();
         loop {
-            // Periodically check timeout and memory limits to reduce overhead
-            self.iteration_count += 1;
-            if self.iteration_count % self.timeout_check_interval == 0 {
-                #[cfg(selen_verif)]
-                if crate::verif_hooks::scripted_timeout_fires() {
-                    self.trigger_cleanup();
-                    return None;
-                }
-                // Check timeout
-                if let Some(timeout_duration) = self.timeout_duration {
-                    if self.start_time.elapsed() >= timeout_duration {
-                        // Timeout exceeded - trigger cleanup before returning
-                        self.trigger_cleanup();
-                        return None;
-                    }
-                }
-                
-                // Check memory limit
-                if let Some(limit_mb) = self.memory_limit_mb {
-                    if self.get_memory_usage_mb() > limit_mb as usize {
-                        // Memory limit exceeded - trigger cleanup before returning
-                        self.trigger_cleanup();
-                        return None;
-                    }
-                }
+            if self.limit_reached() {
+                return None;
             }
 
             while let Some((mut space, p)) = self.branch_iter.next() {
@@ -671,7 +704,7 @@ impl<M: Mode, B: Iterator<Item = (Space, crate::constraints::props::PropId)>> It
                     Agenda::with_props(self.mode.on_branch(&mut space).chain(core::iter::once(p)));
 
                 // Failed spaces are discarded, fixed points get explored further (depth-first search)
-                if let Some((is_stalled, space)) = propagate(space, agenda) {
+                if let Some((is_stalled, space)) = propagate_until(space, agenda, deadline) {
                     // Update statistics tracking
                     self.current_stats = Some((space.get_propagation_count(), space.get_node_count()));
                     
@@ -679,6 +712,10 @@ impl<M: Mode, B: Iterator<Item = (Space, crate::constraints::props::PropId)>> It
                         // Save the current iterator state before branching deeper
                         let current_iter = std::mem::replace(&mut self.branch_iter, (self.branching_factory)(space));
                         self.stack.push(current_iter);
+                        // A search that only descends has to look at its limits too
+                        if self.limit_reached() {
+                            return None;
+                        }
                         continue; // Continue with new branching iterator
                     } else {
                         // Mode object may update its internal state when new solutions are found
@@ -690,6 +727,10 @@ impl<M: Mode, B: Iterator<Item = (Space, crate::constraints::props::PropId)>> It
                         // Extract solution assignment for all decision variables with current statistics
                         return Some(space.into_solution());
                     }
+                } else if deadline.is_some_and(|d| std::time::Instant::now() >= d) {
+                    // The space may not have failed: its propagation is given up at the deadline
+                    self.trigger_cleanup();
+                    return None;
                 }
             }
 
@@ -699,7 +740,7 @@ impl<M: Mode, B: Iterator<Item = (Space, crate::constraints::props::PropId)>> It
             } else if let Some(root) = self.fallback.take() {
                 // Nothing was found below the LP vertex: search the root the vertex was taken from
                 let agenda = Agenda::with_props(root.props.get_prop_ids_iter());
-                match propagate(root, agenda) {
+                match propagate_until(root, agenda, deadline) {
                     Some((true, space)) => {
                         self.current_stats = Some((space.get_propagation_count(), space.get_node_count()));
                         self.branch_iter = (self.branching_factory)(space);
@@ -719,12 +760,38 @@ impl<M: Mode, B: Iterator<Item = (Space, crate::constraints::props::PropId)>> It
 
 /// Apply scheduled propagators, pruning domains until space is failed, stalled, or assigned.
 #[doc(hidden)]
-pub fn propagate(mut space: Space, mut agenda: Agenda) -> Option<(bool, Space)> {
+pub fn propagate(space: Space, agenda: Agenda) -> Option<(bool, Space)> {
+    propagate_until(space, agenda, None)
+}
+
+/// Number of propagator runs between two looks at the clock in `propagate_until`
+const DEADLINE_CHECK_INTERVAL: usize = 1024;
+
+/// Like `propagate`, but a propagation that starts after `deadline`, or is still running then, is
+/// given up: the space is reported as failed (`None`), and the caller tells the two apart by
+/// looking at the clock.
+#[doc(hidden)]
+pub fn propagate_until(
+    mut space: Space,
+    mut agenda: Agenda,
+    deadline: Option<std::time::Instant>,
+) -> Option<(bool, Space)> {
     // Track which domains got updated, to schedule next propagators in batch
     let mut events = Vec::with_capacity(16);
+    let mut runs: usize = 0;
     
     // Agenda establishes the order in which scheduled propagators get run
     while let Some(p) = agenda.pop() {
+        // Propagation over float bounds can creep for billions of steps, and a search can descend for ever
+        // through short propagations: look at the clock at the first run and now and then afterwards
+        if runs % DEADLINE_CHECK_INTERVAL == 0 {
+            if let Some(deadline) = deadline {
+                if std::time::Instant::now() >= deadline {
+                    return None;
+                }
+            }
+        }
+        runs += 1;
         
         // Increment the propagation step counter
         space.props.increment_propagation_count();
